@@ -306,7 +306,7 @@ Section Commute.
   Hypothesis W : wfP s.
   Hypothesis Q : qcoverP s.
   Hypothesis V : staking_validate from to s = Ok tt.
-  Hypothesis X : staking_execute from to (bank_execute from to s) = Ok s1.
+  Hypothesis X : staking_execute from to (bank_move from to s) = Ok s1.
 
   Let s' := set_record from to s1.
   Let M : moved from to s s' := is_moved from to s s1 Hft W V X.
